@@ -924,7 +924,7 @@ def execute(case):
             # list object itself (not a copy) is looked at again at the end
             errs = getattr(obj, "errors", None)
             if isinstance(errs, list):
-                handed_out_errors.append((i, errs, canon_errors(errs)))
+                handed_out_errors.append((i, errs, _errors_snapshot(errs)))
     if failure is None:
         # cross-invariant: nothing returned earlier has changed since
         for (i, builder, tree, canon0) in returned:
@@ -936,10 +936,31 @@ def execute(case):
                 failure = ("cross", "the tree returned by op %d changed after later ops on the same objects: %s"
                            % (i, first_diff(canon0, now)))
                 break
+    if failure is None and len(returned) >= 2:
+        # results must not SHARE mutable parts either: change each earlier result the way a caller might (an attribute
+        # on its elements, text appended to its root) and see that no other result moves
+        for k, (i, builder, tree, canon0) in enumerate(returned[:6]):
+            try:
+                _poke(tree, builder, k)
+            except Exception:
+                continue
+            for m, (j, builder2, tree2, canon2) in enumerate(returned[:6]):
+                if m <= k:
+                    continue
+                try:
+                    now = canon_tree(tree2, builder2)
+                except Exception as e:
+                    now = ("raise", type(e).__name__)
+                if now != canon2:
+                    failure = ("cross", "changing the tree returned by op %d (as a caller might) changed the tree returned by "
+                               "op %d: %s" % (i, j, first_diff(canon2, now)))
+                    break
+            if failure:
+                break
     if failure is None:
         for (i, errs, canon0) in handed_out_errors:
             try:
-                now = canon_errors(errs)
+                now = _errors_snapshot(errs)
             except Exception as e:
                 now = [("raise", type(e).__name__, 0)]
             if now != canon0:
@@ -963,6 +984,36 @@ def execute(case):
         res["oracle"] = failure[0]
         res["detail"] = failure[1]
     return res
+
+
+def _errors_snapshot(errs):
+    """(code, line, col, variables) - the variables dict by value, so that a dict shared between entries or calls and
+    changed later shows up."""
+    return [(str(code), pos[0], pos[1], tuple(sorted((str(k), str(v)) for k, v in (dv or {}).items())))
+            for pos, code, dv in errs]
+
+
+def _poke(tree, builder, k):
+    """Mutate a returned tree in place the way application code might."""
+    if builder.startswith("dom"):
+        n = 0
+        stack = [tree]
+        while stack and n < 50:
+            node = stack.pop()
+            if node.nodeType == node.ELEMENT_NODE:
+                node.setAttribute("data-poke", str(k))
+                n += 1
+            stack.extend(node.childNodes)
+        return
+    root = tree.getroot() if hasattr(tree, "getroot") else tree
+    n = 0
+    for el in root.iter():
+        if isinstance(el.tag, str):
+            el.attrib["data-poke"] = str(k)
+            el.text = (el.text or "") + "<poke %d>" % k
+            n += 1
+            if n >= 50:
+                break
 
 
 def _pristine(cfg, op):
